@@ -12,8 +12,9 @@
     bound is measured by obs_fault.  Partial for scheduling/timing.
  *)
 From Coq Require Import List NArith ZArith Bool.
-Require Import RV.Model.Base RV.Model.PipeQueue RV.Model.Pipe RV.Model.PipeLts.
+Require Import RV.Model.Base RV.Model.PipeQueue RV.Model.Pipe RV.Model.PipeLts RV.Model.PipeWatch.
 Require Import RV.Proofs.PipeLtsBasics RV.Proofs.PipeExclusive RV.Proofs.PipeRouting RV.Proofs.PipeLifecycle RV.Proofs.PipeNotStuck.
+Require Import RV.Proofs.PipeWatchProofs.
 Import ListNotations.
 Open Scope N_scope.
 
@@ -107,4 +108,73 @@ Proof. vm_compute. reflexivity. Qed.
 Example C04_nonvacuous_not_stuck :
   option_map (fun s => (p_b s, p_waits s))
              (prun cfg (firstn 19 fail_sched) (p_init cfg)) = Some (BClean, 2%nat).
+Proof. vm_compute. reflexivity. Qed.
+
+(** ** The keep-alive watchdog and the blocking-command signal (Model/PipeWatch.v)
+
+    A connection that goes silent without being closed is failed by backgroundPing only: the pending calls without a
+    deadline, Receive and the error channel of SetPubSubHooks depend on it.  The watchdog stands back while
+    p.blcksig <> 0.  [wrun] is the pipe LTS extended with that counter as Do / DoMulti maintain it and with the
+    watchdog's tick / time-out; every state it reaches is a state of the pipe LTS ([C04_watchdog_states_are_pipe_states]),
+    so everything above applies to it. *)
+Theorem C04_watchdog_states_are_pipe_states : forall g sched ws,
+  wrun g sched (w_init g) = Some ws -> exists base, prun g base (p_init g) = Some (w_p ws).
+Proof. intros g sched ws H. apply (wrun_base g sched (w_init g) ws []); [reflexivity|exact H]. Qed.
+Print Assumptions C04_watchdog_states_are_pipe_states.
+
+(** the counter is exactly the number of blocking calls that are in flight or were abandoned with a transport or
+    context error (whose wire the caller aborts); a blocking call that ended with a reply - a value, a null reply,
+    an error reply - no longer counts *)
+Theorem C04_blcksig_exact : forall g sched ws,
+  wrun g sched (w_init g) = Some ws -> w_blk ws = bsum (w_p ws).
+Proof. exact blcksig_exact. Qed.
+Print Assumptions C04_blcksig_exact.
+
+Theorem C04_blcksig_zero : forall g sched ws,
+  wrun g sched (w_init g) = Some ws -> ~ blocked_or_aborted (w_p ws) -> w_blk ws = 0%nat.
+Proof. exact blcksig_zero. Qed.
+Print Assumptions C04_blcksig_zero.
+
+(** hence, on a pipe without error that is not in the middle of a synchronous call, with no blocking call in flight or
+    abandoned, the watchdog's own steps are enabled and close the connection and latch the error without touching
+    the queue or the calls: from there [C04_not_stuck] / [C04_drain] hand every pending call its error *)
+Theorem C04_watchdog_fails_silent_connection : forall g sched ws,
+  wrun g sched (w_init g) = Some ws -> ~ blocked_or_aborted (w_p ws) ->
+  p_err (w_p ws) = None -> (p_st (w_p ws) = 0 -> p_waits (w_p ws) = 0%nat) ->
+  exists path ws', (path = [WTick; WTimeout] \/ path = [WTimeout]) /\ wrun g path ws = Some ws' /\
+                   p_err (w_p ws') = Some EWatchdog /\ p_conn (w_p ws') = false /\ p_st (w_p ws') <> 1 /\
+                   p_calls (w_p ws') = p_calls (w_p ws) /\ p_q (w_p ws') = p_q (w_p ws) /\ p_waits (w_p ws') = p_waits (w_p ws).
+Proof. exact watchdog_enabled. Qed.
+Print Assumptions C04_watchdog_fails_silent_connection.
+
+(** non-vacuity: a blocking command answered by a null reply (call 1), then a pipelined call without deadline
+    (call 2) on a server that has gone silent: blcksig is back at 0, the watchdog ticks, times out, the reader fails,
+    the drain hands call 2 the watchdog's error.  With a blocking command abandoned on a context error instead
+    (call 3, last example) the counter stays at 1 and the watchdog's tick is disabled - by design: such a wire is aborted. *)
+Definition blpop (id : N) : cmd := mkCmd id 3 false false false false false true.
+Definition nil_srv : server := mkSrv (fun c => if N.eqb (c_id c) 10 then Msg 95 [] 0 [] else Msg 36 [c_id c] 0 []) (fun c => []) (fun c => pong_msg).
+Definition wcfg : config := mkCfg Ring 4 false 7 nil_srv.
+Definition stall_sched : list wlabel :=
+  map WL [LCall 1 [blpop 10] false CtxBg; LIncr 1; LLoad 1; LSyncW 1; LSrv; LSyncR 1; LDecr 1;
+          LCall 2 [plain 20] false CtxCancel; LIncr 2; LLoad 2; LBg 2; LPut 2; LWNext; LWFlush] ++
+  [WTick; WTimeout] ++
+  map WL [LRFail; LPostPing 9; LPut 9; LWNext; LWExit; LCleanNR; LRecv 2; LFin 2].
+
+Example C04_nonvacuous_watchdog :
+  option_map (fun ws => (w_blk ws, k_ret (p_calls (w_p ws) 1), k_ret (p_calls (w_p ws) 2), p_err (w_p ws)))
+             (wrun wcfg stall_sched (w_init wcfg)) =
+  Some (0%nat, Some [RMsg (Msg 95 [] 0 [])], Some [RErr EWatchdog], Some EWatchdog).
+Proof. vm_compute. reflexivity. Qed.
+
+Example C04_nonvacuous_blcksig_up :
+  option_map (fun ws => (w_blk ws, wstep wcfg ws WTick))
+             (wrun wcfg (map WL [LCall 1 [blpop 10] false CtxBg; LIncr 1; LLoad 1; LSyncW 1]) (w_init wcfg)) =
+  Some (1%nat, None).
+Proof. vm_compute. reflexivity. Qed.
+
+Example C04_nonvacuous_abandoned :
+  option_map (fun ws => (w_blk ws, k_ret (p_calls (w_p ws) 3)))
+             (wrun wcfg (map WL [LCall 9 [plain 90] false CtxCancel; LIncr 9; LLoad 9; LBg 9; LPut 9;
+                                 LCall 3 [blpop 30] false CtxDeadline; LIncr 3; LLoad 3; LPut 3; LCtxDone 3; LAbort 3]) (w_init wcfg)) =
+  Some (1%nat, Some [RErr ECtx]).
 Proof. vm_compute. reflexivity. Qed.
